@@ -63,6 +63,15 @@ Theorem C19_reannounce_partial : forall evs c sent,
   (cl_resources c <> [] -> includes sent (on_open_required c) = false).
 Proof. exact reannounce_partial. Qed.
 
+(* every REGISTERED open session has announced the TM: after ANY history — connections
+   lost with the session open or already closed by the peer, reconnects to any address,
+   first writes on a fresh connection that FAIL while the session stays open (then the
+   session is released again, nothing stays registered) — a connected client has had
+   RegisterTM written successfully on its session *)
+Theorem C19_registered_announced : forall evs,
+  cl_connected (fst (crun cinit evs)) = true -> cl_tm (fst (crun cinit evs)) = true.
+Proof. exact registered_announced. Qed.
+
 (* ---- non-vacuity ---- *)
 Definition toy_hash (k : bytes) : N := fold_left (fun a b => (a * 31 + b2n b) mod 4294967296) k 7.
 Definition ex_a : bytes := [x61; x3a; x31].       (* "a:1" *)
@@ -91,10 +100,20 @@ Proof. vm_compute. auto. Qed.
    while open, reconnect to ANOTHER address: RegisterTM on each of the three sessions *)
 Example C19_reannounce_nonvacuous :
   let a := [x61] in let b := [x62] in
-  let r := crun cinit [CReconnect a; CConnLost true; CReconnect a; CRegisterResource [x72];
-                       CConnLost false; CReconnect b] in
+  let r := crun cinit [CReconnect a true; CConnLost true; CReconnect a true; CRegisterResource [x72];
+                       CConnLost false; CReconnect b true] in
   map snd (snd r) = [[RegisterTM]; [RegisterTM]; [RegisterTM]]
   /\ map (fun cs => cl_server (fst cs)) (snd r) = [[]; [(a, 1)]; [(a, 1)]]
   /\ cl_server (fst r) = [(a, 1); (b, 1)] /\ cl_all (fst r) = 1
   /\ map (fun cs => cl_resources (fst cs)) (snd r) = [[]; []; [[x72]]].
 Proof. vm_compute. auto 6. Qed.
+
+(* a reconnect whose announcement cannot be written leaves the client disconnected and
+   nothing registered; the next reconnect announces *)
+Example C19_registered_announced_nonvacuous :
+  let a := [x61] in
+  let c1 := fst (crun cinit [CReconnect a true; CConnLost true; CReconnect a false]) in
+  let c2 := fst (crun cinit [CReconnect a true; CConnLost true; CReconnect a false; CReconnect a true]) in
+  cl_connected c1 = false /\ cl_all c1 = 0 /\ cnt_of (cl_server c1) a = 1
+  /\ cl_connected c2 = true /\ cl_tm c2 = true /\ cl_all c2 = 1.
+Proof. vm_compute. auto 7. Qed.
